@@ -455,10 +455,19 @@ class SecAndStartModification(Contract):
                 st.labels.append(lab)
                 return lab
             reg.func_('moPepGen/aa/VariantPeptideIdentifier.py', 'create_variant_peptide_id', mk_label)
-            reg.method_('MiscleavedNodes', 'create_peptide_segments', lambda I, o, a, k: SymObj('Segments'))
-            reg.method_('PVGNode', 'copy', lambda I, o, a, k: SymObj('PVGNode', **o.fields))
-            reg.method_('PVGNode', 'truncate_left', lambda I, o, a, k: None)
-            reg.method_('PVGNode', 'truncate_right', lambda I, o, a, k: None)
+            # segments are computed from a list of nodes; the contract follows which nodes (originals or truncated copies)
+            reg.method_('MiscleavedNodes', 'create_peptide_segments', lambda I, o, a, k: SymObj('Segments', of=list(a[0]) if isinstance(a[0], list) else a[0]))
+            reg.method_('PVGNode', 'copy', lambda I, o, a, k: SymObj('PVGNode', **{**o.fields, '_copy_of': o.fields.get('_copy_of', o), '_ltrunc': o.fields.get('_ltrunc', 0)}))
+
+            def trunc_left(I, o, a, k):
+                I.e.prove('C04/mod/only-copies-of-the-nodes-are-truncated', '_copy_of' in o.fields)
+                o.fields['_ltrunc'] = o.fields.get('_ltrunc', 0) + a[0]
+
+            def trunc_right(I, o, a, k):
+                I.e.prove('C04/mod/only-copies-of-the-nodes-are-truncated', '_copy_of' in o.fields)
+                o.fields['_rtrunc'] = a[0]
+            reg.method_('PVGNode', 'truncate_left', trunc_left)
+            reg.method_('PVGNode', 'truncate_right', trunc_right)
 
             def comp(I, node, env, view, kind):
                 st = c._cur
@@ -525,6 +534,21 @@ class SecAndStartModification(Contract):
             items.append((f'{tag}/yields-the-form-then-the-form-without-M', z3.And(_pstr_is(ys[0][0], st.seq, lo, hi), _pstr_is(ys[1][0], st.seq, lo + 1, hi))))
         elif len(ys) == 1:
             items.append((f'{tag}/yields-the-accepted-form', z3.If(b0, _pstr_is(ys[0][0], st.seq, lo, hi), _pstr_is(ys[0][0], st.seq, lo + 1, hi))))
+        # the table rows of a form are computed from nodes that spell that form: an M-removed form from a copy of the first node
+        # with its first residue cut off, the form itself from an uncut first node; in the plain block the other nodes are the given ones
+        kinds = ['full', 'mrem'] if len(ys) == 2 else [None]
+        for (y, md), kind in zip(ys, kinds):
+            seg = md.fields.get('segments')
+            of = seg.fields.get('of') if isinstance(seg, SymObj) else None
+            good = isinstance(of, list) and len(of) >= 1 and isinstance(of[0], SymObj)
+            if good:
+                first = of[0]
+                lt = first.fields.get('_ltrunc', 0)
+                base = first.fields.get('_copy_of', first)
+                cut_ok = (lt == 0) if kind == 'full' else (lt == 1 and '_copy_of' in first.fields) if kind == 'mrem' else \
+                    z3.If(b0, lt == 0, z3.BoolVal(lt == 1 and '_copy_of' in first.fields))
+                good = z3.And(cut_ok, base is st.nodes[0] and (skipped is not None or (len(of) == len(st.nodes) and all(a_ is b_ for a_, b_ in zip(of[1:], st.nodes[1:])))))
+            items.append((f'{tag}/segments-from-nodes-that-spell-the-yielded-form', good))
         for y, md in ys:
             lab = md.fields.get('label')
             items.append((f'{tag}/label-names-the-right-events', label_ok(lab)))
